@@ -30,7 +30,14 @@ ASSUMPTIONS = [
     "enumeration oracle: all 2^(N-2) lists, N <= 12",
     "simplify_builtin: the per-segment criterion of simplify modes 4/5/6 is evaluated by tracklib's own (private) cost "
     "functions with the tolerance as their offset; only the optimisation is judged (1e-9 relative); tracks in general position (no repeated position, no three fixes "
-    "collinear: tracklib's Jarvis-march convex hull does not terminate on collinear sets, which is outside C12)",
+    "collinear: tracklib's Jarvis-march convex hull does not terminate on collinear sets, which is outside C12; pairwise distinct "
+    "abscissas: its bounding rectangle divides by the x-extent of every hull edge and raises ZeroDivisionError on a vertical one)",
+    "simplify_builtin history: simplify is judged at every call against the coordinates the Track object holds AT THAT CALL (criterion "
+    "matrix from tracklib's cost function on a FRESH track built from those coordinates), whatever was computed on the object before; "
+    "in-place edits are removeObs and position.setX / setY of one fix and keep the track in the domain above",
+    "partition: the array may have any numeric numpy dtype in which every entry is exactly representable (float64, float32, int64/32/16/8, "
+    "uint16/8, bool for 0/1 tables); the oracle works on the mathematical values, so sums may leave the range of the dtype",
+    "segmentation / simplify: a second call with another cost table on the same Track object is judged against that second table",
     "partition: the same matrix object may be passed again (other direction): every answer is judged against the matrix as first handed over",
 ]
 
@@ -128,14 +135,70 @@ def full_matrix(case, N, W):
 
 
 # --- (1) optimalPartition ------------------------------------------------------------------------------
+DTYPES = ["float64", "int64", "bool", "uint8", "int8", "int16", "int32", "uint16", "float32"]
+_EXH_ROTATION = ["int64", "uint8", "int8", "int16", "int32", "uint16", "float32"]
+
+
+def _representable(v, dtype):
+    """v (a Python float) is exactly a value of the numpy dtype"""
+    if dtype == "float64":
+        return True
+    if dtype == "bool":
+        return v == 0.0 or v == 1.0
+    if dtype == "float32":
+        return float(np.float32(v)) == v
+    info = np.iinfo(dtype)
+    return v == int(v) and info.min <= int(v) <= info.max
+
+
+def typed_matrix(C, dtype):
+    """C as an array of `dtype` when EVERY entry is exactly representable in it (the caller's quantised / boolean table),
+    else C itself (float64).  Returns (array, effective dtype name).  The oracle never sees the array."""
+    if dtype == "float64":
+        return C, "float64"
+    with np.errstate(all="ignore"):
+        T = C.astype(dtype)
+        back = T.astype(np.float64)
+    # a value outside the dtype comes back as some value inside it, i.e. different
+    if np.array_equal(back, C):
+        return T, dtype
+    return C, "float64"
+
+
+def _range_class(C, W, N, dtype):
+    """does some list of candidates have a value outside the dtype (wrap-around / saturation possible)?"""
+    if dtype in ("float64", "int64"):
+        return None
+    vals = [list_value(W, L) for L in all_lists(N)] + [W[i][k] + W[k][j] for i in range(N) for k in range(i + 1, N) for j in range(k + 1, N)]
+    if any(not _representable(float(v), dtype) for v in vals):
+        return "sums-leave-" + dtype
+    return None
+
+
 def body_partition(case):
     N, W, exact = unpack(case)
-    C = full_matrix(case, N, W)
-    if case.get("int_dtype") and exact and float(case.get("pad", 0)).is_integer() and float(case.get("diag", 0)).is_integer():
-        C = C.astype(int)
+    C0 = full_matrix(case, N, W)
+    dtype = case.get("dtype", "int64" if case.get("int_dtype") else "float64")
+    C, eff = typed_matrix(C0, dtype)
     L = optimalPartition(C, case["mode"], verbose=bool(case.get("verbose", False)))
-    info = judge("optimalPartition", L, W, N, case["mode"], exact)
+    try:
+        info = judge("optimalPartition", L, W, N, case["mode"], exact)
+    except Violation as v:
+        raise Violation(v.key, "matrix dtype %s: %s" % (eff, v.msg))
     info["cls"].append("integer-valued" if exact else "float-valued")
+    info["cls"].append("dtype=" + eff)
+    rc = _range_class(C0, W, N, eff)
+    if rc:
+        info["cls"].append(rc)
+    # exhaustive sub-check: the same matrix once more as a second array of another dtype (bool for 0/1 matrices)
+    if "dtype2" in case:
+        C2, eff2 = typed_matrix(C0, case["dtype2"])
+        L = optimalPartition(C2, case["mode"], verbose=False)
+        try:
+            judge("optimalPartition", L, W, N, case["mode"], exact)
+        except Violation as v:
+            raise Violation(v.key, "matrix dtype %s: %s" % (eff2, v.msg))
+        info["cls"].append("dtype2=" + eff2)
     # further calls with the SAME matrix object (a user minimises, then maximises, the criterion they built):
     # each answer is judged against the matrix as it was handed over the first time
     for k, mode in enumerate(case.get("again", [])):
@@ -143,8 +206,8 @@ def body_partition(case):
         try:
             judge("optimalPartition", L, W, N, mode, exact)
         except Violation as v:
-            raise Violation("repeat-call-" + v.key, "call %d on the same matrix object (modes so far %s): %s"
-                            % (k + 2, [case["mode"]] + case["again"][:k + 1], v.msg))
+            raise Violation("repeat-call-" + v.key, "call %d on the same matrix object (dtype %s, modes so far %s): %s"
+                            % (k + 2, eff, [case["mode"]] + case["again"][:k + 1], v.msg))
     if case.get("again"):
         info["cls"].append("same-matrix-called-%d-times" % (1 + len(case["again"])))
     return info
@@ -154,9 +217,13 @@ def enum_partition(tier):
     for mode in (MIN, MAX):
         for N in (2, 3, 4, 5):
             for i in range(3 ** (N * (N - 1) // 2)):
-                yield {"N": N, "base": 3, "i": i, "mode": mode}
+                d, two = i, False
+                while d:
+                    two = two or d % 3 == 2
+                    d //= 3
+                yield {"N": N, "base": 3, "i": i, "mode": mode, "dtype2": _EXH_ROTATION[i % 7] if two else "bool"}
         for i in range(2 ** 15):
-            yield {"N": 6, "base": 2, "i": i, "mode": mode}
+            yield {"N": 6, "base": 2, "i": i, "mode": mode, "dtype2": "bool"}
 
 
 def _values(kind):
@@ -166,25 +233,57 @@ def _values(kind):
         "quarter": st.integers(0, 40).map(lambda k: k / 4.0),
         "float": st.floats(min_value=0.0, max_value=10.0, allow_nan=False, allow_infinity=False),
         "signed": st.integers(-3, 3).map(float),
+        # tables whose entries fit a narrow dtype while sums of a few of them do not
+        "bit": st.integers(0, 1).map(float),
+        "u8": st.one_of(st.integers(0, 200), st.integers(60, 200)).map(float),
+        "i8": st.one_of(st.integers(-100, 100), st.integers(40, 120)).map(float),
+        "i16": st.one_of(st.integers(-30000, 30000), st.integers(8000, 30000)).map(float),
+        "u16": st.one_of(st.integers(0, 60000), st.integers(15000, 60000)).map(float),
+        "i32": st.one_of(st.integers(-2000000000, 2000000000), st.integers(500000000, 2000000000)).map(float),
+        "f32": st.sampled_from([0.0, 1.0, 2.0, 3.0, 16777215.0, 16777216.0, 16777218.0]),
     }[kind]
 
 
+# dtype of the array handed to optimalPartition -> kinds of entries that fit it
+_KINDS_OF = {
+    "float64": ["tern", "int", "quarter", "float", "float", "signed"],
+    "int64": ["tern", "int", "int", "signed", "i32"],
+    "bool": ["bit"],
+    "uint8": ["u8", "u8", "int"],
+    "int8": ["i8", "i8", "signed"],
+    "int16": ["i16", "i16", "u8"],
+    "int32": ["i32", "i32", "i16"],
+    "uint16": ["u16", "u16", "u8"],
+    "float32": ["f32", "f32", "quarter"],
+}
+
+
 @st.composite
-def _matrix_case(draw, nmin=2, nmax=12):
+def _matrix_case(draw, nmin=2, nmax=12, kinds=("tern", "int", "int", "quarter", "float", "float", "signed")):
     N = draw(st.one_of(st.integers(nmin, nmax), st.integers(max(nmin, 4), 9)))
-    kind = draw(st.sampled_from(["tern", "int", "int", "quarter", "float", "float", "signed"]))
+    kind = draw(st.sampled_from(list(kinds)))
     val = _values(kind)
     w = draw(st.lists(val, min_size=N * (N - 1) // 2, max_size=N * (N - 1) // 2))
     return {"N": N, "w": w, "mode": draw(st.sampled_from([MIN, MAX])), "kind": kind}
 
 
 @st.composite
+def _second_table(draw, c):
+    """optionally a second cost table of the same size (for a second call on the same Track object)"""
+    if draw(st.integers(0, 2)):
+        return None
+    m = c["N"] * (c["N"] - 1) // 2
+    return {"w": draw(st.lists(_values(c["kind"]), min_size=m, max_size=m)), "mode": draw(st.sampled_from([MIN, MAX]))}
+
+
+@st.composite
 def _partition_case(draw):
-    c = draw(_matrix_case())
+    dtype = draw(st.sampled_from(["float64", "float64", "int64", "int64"] + DTYPES))
+    c = draw(_matrix_case(kinds=_KINDS_OF[dtype]))
     val = _values(c["kind"])
     c["pad"] = draw(val)
     c["diag"] = draw(val)
-    c["int_dtype"] = draw(st.booleans())
+    c["dtype"] = dtype
     c["verbose"] = draw(st.sampled_from([False, False, False, True]))
     if draw(st.integers(0, 2)) == 0:
         c["again"] = draw(st.lists(st.sampled_from([MIN, MAX]), min_size=1, max_size=3))
@@ -224,6 +323,16 @@ def body_segmentation(case):
     L = optimalSegmentation(track, cost, glob, case["mode"], bool(case.get("verbose", False)))
     info = judge("optimalSegmentation", L, W, N, case["mode"], exact)
     info["cls"].append("glob-param" if glob is not None else "no-glob-param")
+    if case.get("then"):
+        # the same Track object again, with another cost table / direction: judged against THAT table
+        t2 = dict(case["then"], N=N)
+        _, W2, exact2 = unpack(t2)
+        L = optimalSegmentation(track, _cost_fn(track, W2, N, glob, []), glob, t2["mode"], False)
+        try:
+            judge("optimalSegmentation", L, W2, N, t2["mode"], exact2)
+        except Violation as v:
+            raise Violation("repeat-call-" + v.key, "second call on the same track: " + v.msg)
+        info["cls"].append("same-track-second-table")
     return info
 
 
@@ -232,6 +341,7 @@ def _segmentation_case(draw):
     c = draw(_matrix_case(2, 10))
     c["glob"] = draw(st.sampled_from([None, None, 0.5, 7, 0, 0.0]))
     c["verbose"] = draw(st.sampled_from([False, False, False, True]))
+    c["then"] = draw(_second_table(c))
     return c
 
 
@@ -257,6 +367,22 @@ def body_simplify(case):
         L.append(k)
     info = judge("simplify", L, W, N, mode, exact)
     info["cls"].append("verbose-default" if case.get("verbose") is None else "verbose-given")
+    if case.get("then"):
+        # the same Track object again, with another cost table / direction: judged against THAT table
+        t2 = dict(case["then"], N=N)
+        _, W2, exact2 = unpack(t2)
+        out = simplify(track, _cost_fn(track, W2, N, None, []), MODE_SIMPLIFY_FREE if t2["mode"] == MIN else MODE_SIMPLIFY_FREE_MAXIMIZE, False)
+        L = []
+        for r in gen.track_records(out):
+            k = by_time.get(r[3])
+            if k is None or rec[k][:3] != r[:3]:
+                raise Violation("simplified-not-a-subset", "second call: simplified track holds %r, not a fix of the input" % (r,))
+            L.append(k)
+        try:
+            judge("simplify", L, W2, N, t2["mode"], exact2)
+        except Violation as v:
+            raise Violation("repeat-call-" + v.key, "second call on the same track: " + v.msg)
+        info["cls"].append("same-track-second-table")
     return info
 
 
@@ -264,6 +390,7 @@ def body_simplify(case):
 def _simplify_case(draw):
     c = draw(_matrix_case(2, 10))
     c["verbose"] = draw(st.sampled_from([None, False, True]))
+    c["then"] = draw(_second_table(c))
     return c
 
 
@@ -275,47 +402,129 @@ BUILTIN = {
 }
 
 
-def body_simplify_builtin(case):
-    """The criterion (width / elongation of the minimum bounding rectangle of the skipped fixes + the tolerance as a
-    per-segment penalty) is evaluated with tracklib's own cost function - the bounding rectangle is not what C12 is
-    about - and the OPTIMISATION over all 2^(N-2) index lists is done here by enumeration."""
-    pts = [tuple(p) for p in case["pts"]]
+def _collinear_triple(pts):
     n = len(pts)
+    return any((pts[b][0] - pts[a][0]) * (pts[c][1] - pts[a][1]) == (pts[b][1] - pts[a][1]) * (pts[c][0] - pts[a][0])
+               for a in range(n) for b in range(a + 1, n) for c in range(b + 1, n))
+
+
+def _builtin_call(track, cur, smode, tol, label):
+    """simplify(track, tol, smode) on the (possibly edited) Track object `track`, whose fixes are NOW cur = [(x, y, t_ms)].
+    The criterion matrix comes from tracklib's cost function evaluated on a FRESH track built from cur."""
+    n = len(cur)
     N = n - 1                                  # break candidates 0..N-1 (the convention of optimalSegmentation)
-    if N < 2:
-        return {"undef": True}
-    if any((pts[b][0] - pts[a][0]) * (pts[c][1] - pts[a][1]) == (pts[b][1] - pts[a][1]) * (pts[c][0] - pts[a][0])
-           for a in range(n) for b in range(a + 1, n) for c in range(b + 1, n)):
-        return {"undef": True, "cls": ["undef-collinear-triple"]}
-    track = gen.make_track(pts)
-    rec = gen.track_records(track)
-    costfn = getattr(simplification, BUILTIN[case["smode"]])
-    tol = case["tol"]
-    ref = gen.make_track(pts)
+    costfn = getattr(simplification, BUILTIN[smode])
+    ref = gen.make_track([(p[0], p[1]) for p in cur], [p[2] for p in cur])
     W = [[0.0] * N for _ in range(N)]
     for i in range(N):
         for j in range(i + 1, N):
             W[i][j] = W[j][i] = float(costfn(ref, i, j - 1, tol))
     if any(not math.isfinite(W[i][j]) for i in range(N) for j in range(N)):
-        return {"undef": True, "cls": ["undef-non-finite-cost"]}
-    out = simplify(track, tol, case["smode"], False)
+        return None
+    rec = [(p[0], p[1], 0.0, p[2], ()) for p in cur]
+    got = gen.track_records(track)
+    if got != rec:
+        # removeObs / setX / setY are not what C12 is about: a mismatch here is a fault of this harness (exit 2)
+        raise AssertionError("%s: track holds %r, model %r" % (label, got, rec))
+    out = simplify(track, tol, smode, False)
     by_time = {r[3]: k for k, r in enumerate(rec)}
     L = []
     for r in gen.track_records(out):
         k = by_time.get(r[3])
         if k is None or rec[k][:3] != r[:3]:
-            raise Violation("simplified-not-a-subset", "simplified track holds %r, not a fix of the input" % (r,))
+            raise Violation("simplified-not-a-subset", "%s: simplified track holds %r, not a fix of the input" % (label, r))
         L.append(k)
-    info = judge("simplify(mode %d, tolerance %r)" % (case["smode"], tol), L, W, N, MIN, False)
-    info["cls"] += ["smode-%d" % case["smode"], "tol=0" if tol == 0 else "tol>0"]
+    info = judge("%s simplify(mode %d, tolerance %r)" % (label, smode, tol), L, W, N, MIN, False)
     if gen.track_records(track) != rec:
-        raise Violation("simplify-modifies-input", "input track changed by simplify(mode %d)" % case["smode"])
+        raise Violation("simplify-modifies-input", "%s: input track changed by simplify(mode %d)" % (label, smode))
     return info
+
+
+def body_simplify_builtin(case):
+    """The criterion (width / elongation of the minimum bounding rectangle of the skipped fixes + the tolerance as a
+    per-segment penalty) is evaluated with tracklib's own cost function - the bounding rectangle is not what C12 is
+    about - and the OPTIMISATION over all 2^(N-2) index lists is done here by enumeration.
+    case["then"]: history on the SAME Track object - an in-place edit (a fix removed with removeObs, a fix moved with
+    setX / setY, or nothing) followed by another call (same or other mode / tolerance); each call is judged against the
+    coordinates the track holds at that call."""
+    pts = [tuple(p) for p in case["pts"]]
+    if len(pts) < 3:
+        return {"undef": True}
+    if _collinear_triple(pts):
+        return {"undef": True, "cls": ["undef-collinear-triple"]}
+    t0 = gen.ms_of_fields(2020, 1, 1)
+    cur = [(p[0], p[1], t0 + 1000 * k) for k, p in enumerate(pts)]
+    track = gen.make_track(pts, [p[2] for p in cur])
+    info = _builtin_call(track, cur, case["smode"], case["tol"], "call 1")
+    if info is None:
+        return {"undef": True, "cls": ["undef-non-finite-cost"]}
+    info["cls"] += ["smode-%d" % case["smode"], "tol=0" if case["tol"] == 0 else "tol>0"]
+    calls, edits = 1, []
+    for k, step in enumerate(case.get("then", [])):
+        ed = step["edit"]
+        nxt = list(cur)
+        if ed["op"] == "remove":
+            i = ed["idx"] % len(cur)
+            del nxt[i]
+        elif ed["op"] == "move":
+            i = ed["idx"] % len(cur)
+            nxt[i] = (float(ed["x"]), float(ed["y"]), cur[i][2])
+        # the edited track must stay in the domain (>= 3 fixes, general position); otherwise the history ends here
+        if len(nxt) < 3 or len(set(p[0] for p in nxt)) < len(nxt) or _collinear_triple(nxt):
+            info["cls"].append("history-cut:edit-leaves-domain")
+            break
+        if ed["op"] == "remove":
+            track.removeObs(i)
+        elif ed["op"] == "move":
+            if nxt[i][0] != cur[i][0]:
+                track.getObs(i).position.setX(nxt[i][0])
+            if nxt[i][1] != cur[i][1]:
+                track.getObs(i).position.setY(nxt[i][1])
+        cur = nxt
+        label = "call %d (same Track object, after %s)" % (k + 2, ", then ".join(edits + [ed["op"]]))
+        try:
+            sub = _builtin_call(track, cur, step["smode"], step["tol"], label)
+        except Violation as v:
+            # root-cause label: is a NEW Track object with the same coordinates simplified correctly?
+            if v.key in ("suboptimal-minimize", "minimize-returns-maximum", "list-malformed"):
+                fresh = gen.make_track([(p[0], p[1]) for p in cur], [p[2] for p in cur])
+                try:
+                    _builtin_call(fresh, cur, step["smode"], step["tol"], label)
+                except Violation:
+                    raise v
+                raise Violation("on-used-track-" + v.key, v.msg)
+            raise
+        if sub is None:
+            info["cls"].append("history-cut:non-finite-cost")
+            break
+        edits.append(ed["op"])
+        calls += 1
+        info["nt"] = info["nt"] or sub["nt"]
+        info["cls"].append("then-%s-%s" % (ed["op"], "same-mode" if step["smode"] == case["smode"] else "other-mode"))
+        if sub["nt"] and ed["op"] != "none":
+            info["cls"].append("interior-optimum-after-edit")
+    info["cls"].append("calls-on-one-track=%d" % calls)
+    info["cls"] = sorted(set(info["cls"]))
+    return info
+
+
+_YCAND = [k / 2.0 for k in range(-24, 25)]
+
+
+def _admissible_y(draw, others, x):
+    """an ordinate from the half-integer lattice such that (x, y) is on no line through two of `others` (exact test)"""
+    start = draw(st.integers(0, len(_YCAND) - 1))
+    for off in range(len(_YCAND)):
+        y = _YCAND[(start + off) % len(_YCAND)]
+        if all((b[0] - a[0]) * (y - a[1]) != (b[1] - a[1]) * (x - a[0])
+               for ia, a in enumerate(others) for b in others[ia + 1:]) and all((x, y) != (o[0], o[1]) for o in others):
+            return y
+    raise AssertionError("no admissible ordinate")
 
 
 @st.composite
 def _simplify_builtin_case(draw):
-    n = draw(st.integers(3, 9))
+    n = draw(st.one_of(st.integers(3, 9), st.integers(5, 9)))
     # strictly increasing x: no repeated position, so every bounding rectangle has a positive length
     xs, x = [], 0.0
     for _ in range(n):
@@ -323,21 +532,34 @@ def _simplify_builtin_case(draw):
         xs.append(x)
     # no three fixes collinear (exact test on half-integers): tracklib's convex hull (Jarvis march) does not terminate on
     # collinear point sets - a defect of the bounding-shape code, outside what C12 states - so they are not generated
-    cand = [k / 2.0 for k in range(-24, 25)]
-    ys = []
+    pts = []
     for k in range(n):
-        start = draw(st.integers(0, len(cand) - 1))
-        for off in range(len(cand)):
-            y = cand[(start + off) % len(cand)]
-            if all((xs[b] - xs[a]) * (y - ys[a]) != (ys[b] - ys[a]) * (xs[k] - xs[a])
-                   for a in range(k) for b in range(a + 1, k)):
-                ys.append(y)
-                break
-        else:
-            raise AssertionError("no admissible ordinate")
+        pts.append((xs[k], _admissible_y(draw, pts, xs[k])))
     smode = draw(st.sampled_from(sorted(BUILTIN)))
-    tol = draw(st.sampled_from([0, 0.0, 0.1, 0.5, 1.0, 1, 2.0, 5.0]))
-    return {"pts": [[a, b] for a, b in zip(xs, ys)], "smode": smode, "tol": tol}
+    tols = [0, 0.0, 0.1, 0.5, 1.0, 1, 2.0, 5.0]
+    tol = draw(st.sampled_from(tols))
+    case = {"pts": [[a, b] for a, b in pts], "smode": smode, "tol": tol}
+    # history on the same Track object; the edits keep the fixes in general position (quarter-unit x shifts, lattice y)
+    then, cur = [], list(pts)
+    for _ in range(draw(st.sampled_from([0, 1, 1, 2]))):
+        op = draw(st.sampled_from(["remove", "move", "move", "none"])) if len(cur) > 3 else draw(st.sampled_from(["move", "none"]))
+        ed = {"op": op}
+        if op == "remove":
+            ed["idx"] = draw(st.integers(0, len(cur) - 1))
+            del cur[ed["idx"]]
+        elif op == "move":
+            i = draw(st.integers(0, len(cur) - 1))
+            others = cur[:i] + cur[i + 1:]
+            nx = cur[i][0] + draw(st.sampled_from([0.0, 0.0, 0.25, -0.25, 4.25]))
+            if any(o[0] == nx for o in others):      # abscissas stay pairwise distinct (see ASSUMPTIONS)
+                nx = cur[i][0]
+            ny = _admissible_y(draw, others, nx)
+            ed.update({"idx": i, "x": nx, "y": ny})
+            cur[i] = (nx, ny)
+        then.append({"edit": ed, "smode": draw(st.sampled_from([smode, smode] + sorted(BUILTIN))),
+                     "tol": draw(st.sampled_from([tol, tol] + tols))})
+    case["then"] = then
+    return case
 
 
 # --- (4) findStopsGlobal ------------------------------------------------------------------------------
@@ -483,25 +705,31 @@ def _stops_case(draw):
 
 
 RULE = ("partition_exh: EVERY {0,1,2}-valued symmetric matrix for N = 2..5 candidates (3^1+3^3+3^6+3^10) and every {0,1}-valued one for "
-        "N = 6 (2^15), each in both directions; partition: Hypothesis, N 2..12, entries {0,1,2} / ints 0..10 / quarters / floats [0,10] / "
-        "ints -3..3, unused diagonal and last row/column filled with values of the same kind, int or float dtype; segmentation and "
-        "simplify: the same matrices served through a table-backed cost function (with/without glob_param; FREE and FREE_MAXIMIZE); "
+        "N = 6 (2^15), each in both directions, as a float64 array and once more as an array of another dtype (bool for every 0/1 matrix; "
+        "int64/uint8/int8/int16/int32/uint16/float32 in rotation otherwise); partition: Hypothesis, N 2..12, generated dtype of the array "
+        "(float64, int64, bool, uint8, int8, int16, int32, uint16, float32) with entries that fit it - {0,1,2} / ints 0..10 / quarters / "
+        "floats [0,10] / ints -3..3 / bits / ints up to 200, +-120, +-30000, 60000, +-2e9 / floats around 2^24 - so that sums of a few "
+        "entries leave the narrow range; unused diagonal and last row/column filled with values of the same kind; optional further calls on the same array; "
+        "segmentation and simplify: such matrices served through a table-backed cost function (with/without glob_param; FREE and "
+        "FREE_MAXIMIZE), optionally a second call with another table on the same Track object; simplify_builtin: modes 4/5/6 on 3..9-fix "
+        "tracks in general position followed by a generated history of 0..2 steps on the SAME Track object - in-place edit (removeObs / a fix "
+        "moved with setX, setY / none), then simplify again with the same or another mode and tolerance - each call judged on the current coordinates; "
         "stops: 3..8-fix stop-and-go tracks (1-D integer or 2-D float), findStopsGlobal re-scored with the documented reward matrix. "
         "Every returned list is compared with the enumeration of all 2^(N-2) lists. Non-trivial: min-optimum != max-optimum and the "
         "two-element list [0, N-1] attains neither (stops: at least 3 distinct achievable scores). Distinct = hash of the case.")
 
 SUBCHECKS = [
     SubCheck("partition_exh", body_partition, enum=enum_partition, qshards=8, tshards=16,
-             rule="all {0,1,2} matrices N<=5, all {0,1} matrices N=6, both directions"),
+             rule="all {0,1,2} matrices N<=5, all {0,1} matrices N=6, both directions, float64 + a second dtype"),
     SubCheck("partition", body_partition, strategy=_partition_case, quick=4000, thorough=120000, qshards=4,
-             rule="random symmetric matrices N<=12, both directions"),
+             rule="random symmetric matrices N<=12 in 9 numpy dtypes, both directions"),
     SubCheck("segmentation", body_segmentation, strategy=_segmentation_case, quick=2000, thorough=60000, qshards=4,
              rule="optimalSegmentation with table-backed cost, both directions"),
     SubCheck("simplify", body_simplify, strategy=_simplify_case, quick=2000, thorough=60000, qshards=4,
              rule="simplify FREE / FREE_MAXIMIZE with table-backed cost"),
-    SubCheck("simplify_builtin", body_simplify_builtin, strategy=_simplify_builtin_case, quick=1200, thorough=30000, qshards=4,
-             rule="simplify modes 4/5/6 (built-in bounding-rectangle criteria, tolerance incl. 0) on 3..9-fix tracks; "
-                  "matrix from tracklib's own cost function, optimum by enumeration"),
+    SubCheck("simplify_builtin", body_simplify_builtin, strategy=_simplify_builtin_case, quick=1800, thorough=30000, qshards=4,
+             rule="simplify modes 4/5/6 (built-in bounding-rectangle criteria, tolerance incl. 0) on 3..9-fix tracks, then in-place edits and "
+                  "further calls on the same Track object; matrix from tracklib's own cost function on a fresh track, optimum by enumeration"),
     SubCheck("stops", body_stops, strategy=_stops_case, quick=1500, thorough=40000, qshards=4,
              rule="findStopsGlobal vs documented reward matrix"),
 ]
